@@ -27,6 +27,13 @@ let parse_event (text : string) : sys_event =
   match split_on ' ' text with
   | "CALL" :: id :: rest -> SCall (n_of_int (int_of_string id), Cl_io.parse_api rest)
   | "BPUB" :: rest -> SBpub (Gw_io.parse_mq rest)
+  | "BBURST" :: rest ->
+    (* PUBLISH specs separated by "|" *)
+    let rec groups cur acc = function
+      | [] -> List.rev (List.rev cur :: acc)
+      | "|" :: r -> groups [] (List.rev cur :: acc) r
+      | x :: r -> groups (x :: cur) acc r in
+    SBurst (List.map Gw_io.parse_mq (groups [] [] rest))
   | ["ADV"; d] -> SAdv (n_of_int (int_of_string d))
   | _ -> failwith ("bad e2e event " ^ text)
 
